@@ -18,7 +18,8 @@ RULE = (
     "term's column, located through model_spec.term_indices, is compared with the exact forward difference "
     "[the same over the factor alphabet {a, N, c} for every N among the 26 names of formulaic's transform namespace used "
     "as a plain column (scale, lag, log, C, np, ...), 5 other identifiers, 2 back-quoted names, and 4 names used both as "
-    "a column and as a function N(a) in the same formula] "
+    "a column and as a function N(a) in the same formula; and over 17 degenerate frames: each of a, b, c in turn all zero "
+    "(float, int), constant 1, int dtype, partly zero, plus all-int and all-zero frames] "
     "(h = 1 and h = 1/2) of the product of the original term's factor columns.  Non-trivial = at least one term "
     "whose derivative the property specifies and wrt non-empty; counted once per (formula, ordering, wrt, path, rank)."
 )
@@ -287,6 +288,8 @@ def drv_numeric(c, ctx, col):
     has_one = any(r == ("TERM", ()) for v in want_all.values() for r in v)
     key = "numeric[%s] :: %r wrt=%s ensure_full_rank=%s output=%s (zero-terms=%d unit-term=%s)" % (
         path, shown, list(wrt), efr, output, n_zero, "yes" if has_one else "no")
+    if ctx.get("data_label"):
+        key += " data=" + ctx["data_label"]
     detail = {"formula": shown, "wrt": list(wrt), "ensure_full_rank": efr, "path": path, "output": output, "data": data,
               "repro": "df = pandas.DataFrame(%r); %s" % (data, call)}
     checkable = sum(1 for v in want_all.values() for r in v if r[0] == "TERM")
@@ -344,6 +347,39 @@ def drv_numeric(c, ctx, col):
                 violation(key, dict(d, got_column=got), sig="wrong-derivative-column")
                 return
             col.count("columns-agree")
+    if ctx.get("impl_fd") and path == "formula" and len(wrt) == 1 and wrt[0] in data:
+        # differential form of the same clause: the derivative column equals the forward difference of the column the
+        # implementation itself materializes for the ORIGINAL term at x and at x + h (h = 1)
+        import pandas
+
+        F = formula_for(rhs, ordering)
+        v = wrt[0]
+        shifted = dict(data)
+        shifted[v] = [x + 1 for x in data[v]]
+        try:
+            m0 = F.get_model_matrix(frame(data), ensure_full_rank=efr, output=output)
+            m1 = F.get_model_matrix(pandas.DataFrame(shifted), ensure_full_rank=efr, output=output)
+        except Exception as e:
+            violation(key, dict(detail, error="%s: %s" % (type(e).__name__, str(e)[:200])), sig="original-materialization-raises")
+            return
+        (D, mm), = res.values()
+        v0, v1, vd = (numpy.asarray(m, dtype=float) for m in (m0, m1, mm))
+        for term, dterm, w in zip(list(F), list(D), want_all["root"]):
+            if w[0] != "TERM":
+                continue
+            i0, i1 = list(m0.model_spec.term_indices.get(term, [])), list(m1.model_spec.term_indices.get(term, []))
+            idx = list(mm.model_spec.term_indices.get(dterm, []))
+            d = dict(detail, term=str(term), derivative_term=str(dterm), original_indices=[i0, i1], derivative_indices=idx)
+            if len(i0) != 1 or len(i1) != 1:
+                violation(key, d, sig="original-term-column-missing-at-x-or-x+h")
+                return
+            if len(idx) != 1 or idx[0] >= vd.shape[1]:
+                continue  # already reported above
+            fd = (v1[:, i1[0]] - v0[:, i0[0]]).tolist()
+            if not close_cols(vd[:, idx[0]].tolist(), fd):
+                violation(key, dict(d, finite_difference=fd, got_column=vd[:, idx[0]].tolist()), sig="derivative-differs-from-materialized-difference")
+                return
+        col.count("materialized-differences-agree")
     col.sample({"formula": shown, "wrt": list(wrt), "ensure_full_rank": efr, "path": path})
 
 
@@ -379,6 +415,37 @@ def role_ctx(role, name, base):
 def drv_names_symbolic(c, ctx, col):
     role, name = c.pick(ctx["roles"])
     drv_symbolic(c, role_ctx(role, name, ctx), col)
+
+
+# ---------------------------------------------------------------------------
+# degenerate numeric data: "for all numeric data" includes columns that are identically zero, constant, partly zero, ints
+
+
+def _degenerate_frames():
+    frames = [("general-int", {k: [int(round(x * 2)) for x in v] for k, v in DATA.items()}),
+              ("all-columns-zero", {"a": [0.0] * 4, "b": [0.0] * 4, "c": [0.0] * 4, "y": DATA["y"]})]
+    for v in ("a", "b", "c"):
+        frames.append(("%s=0.0" % v, dict(DATA, **{v: [0.0, 0.0, 0.0, 0.0]})))
+        frames.append(("%s=0(int)" % v, dict(DATA, **{v: [0, 0, 0, 0]})))
+        frames.append(("%s=1.0" % v, dict(DATA, **{v: [1.0, 1.0, 1.0, 1.0]})))
+        frames.append(("%s=int" % v, dict(DATA, **{v: [3, -1, 4, 2]})))
+        frames.append(("%s-partly-zero" % v, dict(DATA, **{v: [0.0, 2.5, 0.0, -1.0]})))
+    return frames
+
+
+DEGENERATE_FRAMES = _degenerate_frames()
+_FRAME_CTX = {}
+
+
+def drv_numeric_frames(c, ctx, col):
+    i = c.choose(len(DEGENERATE_FRAMES))
+    key = (i, id(ctx))
+    if key not in _FRAME_CTX:
+        label, data = DEGENERATE_FRAMES[i]
+        sub = dict(ctx)
+        sub.update(data=data, data_label=label)
+        _FRAME_CTX[key] = sub
+    drv_numeric(c, _FRAME_CTX[key], col)
 
 
 def drv_names_numeric(c, ctx, col):
@@ -466,6 +533,11 @@ def subchecks(tier, seed):
         subs.append(Sub("numeric-outputs", drv_numeric, {"terms": TERMS_PLAIN, "n": 1, "wrt": 2, "paths": ["formula"], "outputs": ["numpy", "sparse"]},
                         shard_depth=3, bounds={"max_terms": 1, "term_pool": 7, "wrt_max_len": 2, "ensure_full_rank": [True, False],
                                                "paths": ["formula"], "outputs": ["numpy", "sparse"]}))
+        subs.append(Sub("numeric-degenerate", drv_numeric_frames, {"terms": TERMS_PLAIN, "n": 1, "wrt": 2, "paths": ["formula"], "icpts": [True],
+                                                                    "impl_fd": True},
+                        shard_depth=3, bounds={"frames": [f[0] for f in DEGENERATE_FRAMES], "max_terms": 1, "term_pool": 7, "wrt_max_len": 2,
+                                               "intercept": "on", "ensure_full_rank": [True, False], "paths": ["formula"],
+                                               "also": "difference of the implementation's own columns of the original term at x and x+1"}))
         subs.append(Sub("names-symbolic", drv_names_symbolic, {"roles": NAME_ROLES, "n": 2, "wrt": 2, "orderings": ["none"], "sides": ["simple"]},
                         shard_depth=2, bounds={"names": {"transform": TRANSFORM_NAMES, "identifier": OTHER_NAMES, "quoted": QUOTED_NAMES,
                                                          "function (column N next to factor N(a))": FUNC_NAMES},
@@ -498,6 +570,11 @@ def subchecks(tier, seed):
                                                           "outputs": ["numpy", "sparse"]},
                         shard_depth=3, bounds={"max_terms": 2, "term_pool": 7, "wrt_max_len": 2, "ensure_full_rank": [True, False],
                                                "paths": ["formula", "two-sided-specs"], "outputs": ["numpy", "sparse"]}))
+        subs.append(Sub("numeric-degenerate", drv_numeric_frames, {"terms": TERMS_PLAIN, "n": 2, "wrt": 2, "paths": ["formula"], "icpts": [True],
+                                                                    "outputs": ["pandas", "numpy"], "impl_fd": True},
+                        shard_depth=3, bounds={"frames": [f[0] for f in DEGENERATE_FRAMES], "max_terms": 2, "term_pool": 7, "wrt_max_len": 2,
+                                               "intercept": "on", "ensure_full_rank": [True, False], "paths": ["formula"], "outputs": ["pandas", "numpy"],
+                                               "also": "difference of the implementation's own columns of the original term at x and x+1"}))
         subs.append(Sub("names-symbolic", drv_names_symbolic, {"roles": NAME_ROLES, "n": 2, "wrt": 3, "orderings": ["none", "degree"],
                                                                 "sides": ["simple", "y"]},
                         shard_depth=2, bounds={"names": {"transform": TRANSFORM_NAMES, "identifier": OTHER_NAMES, "quoted": QUOTED_NAMES,
